@@ -27,6 +27,9 @@ type StyleSpec struct {
 	ID     string                   `json:"id"`
 	Parent string                   `json:"parent,omitempty"`
 	Attrs  *astisub.StyleAttributes `json:"attrs,omitempty"`
+	// Detached: the style object exists and can be referenced (by items, regions, as a parent) but is not an
+	// entry of Subtitles.Styles - what Optimize leaves behind for a parent that is only used through its child
+	Detached bool `json:"detached,omitempty"`
 }
 
 // RegionSpec describes one entry of Subtitles.Regions.
@@ -119,18 +122,22 @@ func (l ListSpec) Build() *astisub.Subtitles {
 		_ = json.Unmarshal(b, &m)
 		s.Metadata = &m
 	}
+	all := map[string]*astisub.Style{}
 	for _, st := range l.Styles {
-		s.Styles[st.ID] = &astisub.Style{ID: st.ID, InlineStyle: cloneAttrs(st.Attrs)}
+		all[st.ID] = &astisub.Style{ID: st.ID, InlineStyle: cloneAttrs(st.Attrs)}
+		if !st.Detached {
+			s.Styles[st.ID] = all[st.ID]
+		}
 	}
 	for _, st := range l.Styles {
 		if st.Parent != "" {
-			s.Styles[st.ID].Style = s.Styles[st.Parent]
+			all[st.ID].Style = all[st.Parent]
 		}
 	}
 	for _, rg := range l.Regions {
 		r := &astisub.Region{ID: rg.ID, InlineStyle: cloneAttrs(rg.Attrs)}
 		if rg.Style != "" {
-			r.Style = s.Styles[rg.Style]
+			r.Style = all[rg.Style]
 		}
 		s.Regions[rg.ID] = r
 	}
@@ -138,7 +145,7 @@ func (l ListSpec) Build() *astisub.Subtitles {
 		i := &astisub.Item{StartAt: time.Duration(it.StartMs) * time.Millisecond, EndAt: time.Duration(it.EndMs) * time.Millisecond,
 			Index: it.Index, InlineStyle: cloneAttrs(it.Attrs), Comments: append([]string(nil), it.Comments...)}
 		if it.Style != "" {
-			i.Style = s.Styles[it.Style]
+			i.Style = all[it.Style]
 		}
 		if it.Region != "" {
 			i.Region = s.Regions[it.Region]
@@ -148,7 +155,7 @@ func (l ListSpec) Build() *astisub.Subtitles {
 			for _, li := range ln.Items {
 				x := astisub.LineItem{Text: li.Text, InlineStyle: cloneAttrs(li.Attrs), StartAt: time.Duration(li.StartMs) * time.Millisecond}
 				if li.Style != "" {
-					x.Style = s.Styles[li.Style]
+					x.Style = all[li.Style]
 				}
 				line.Items = append(line.Items, x)
 			}
@@ -372,7 +379,7 @@ func GenListSized(r *prng.R, idx, maxStyles, maxRegions, maxItems int) ListSpec 
 				}
 			}
 		}
-		st := StyleSpec{ID: id, Attrs: genStyleAttrs(r, i)}
+		st := StyleSpec{ID: id, Attrs: genStyleAttrs(r, i), Detached: r.Bool(0.08)}
 		if i > 0 && r.Bool(0.3) {
 			st.Parent = l.Styles[r.Intn(i)].ID
 		}
